@@ -84,7 +84,8 @@ def history_problems(o):
     for k, (s, e) in enumerate(zip(sn, ev)):
         want = [(p, (-c if mm == "max" else c), f) for p, c, f in s]
         got = [(p, c, f) for p, c, f in e]
-        same = len(want) == len(got) and all(a[0] == b[0] and xkey(a[1]) == xkey(b[1]) and (a[2] == b[2] or (math.isnan(a[2]) and math.isnan(b[2]))) for a, b in zip(want, got))
+        from ..lifesearch import same_pos
+        same = len(want) == len(got) and all((a[0] == b[0] or same_pos(a[0], b[0])) and xkey(a[1]) == xkey(b[1]) and (a[2] == b[2] or (math.isnan(a[2]) and math.isnan(b[2]))) for a, b in zip(want, got))
         if not same:
             probs.append(f"generation {k} of `evolution` differs from the population as it stood after cycle {k}")
             break
